@@ -258,7 +258,8 @@ parser! {
 		pub rule obj_expr(s: &ParserSettings) -> Expr
 			= "{" _ body:objinside(s) _ "}" {Expr::Obj(body)}
 		pub rule array_expr(s: &ParserSettings) -> Expr
-			= "[" _ elems:(expr(s) ** comma()) _ comma()? "]" {Expr::Arr(Rc::new(elems))}
+			= "[" _ "]" {Expr::Arr(Rc::new(Vec::new()))}
+			/ "[" _ elems:(expr(s) ++ comma()) _ comma()? "]" {Expr::Arr(Rc::new(elems))}
 		pub rule array_comp_expr(s: &ParserSettings) -> Expr
 			= "[" _ expr:expr(s) _ comma()? _ specs:(r: compspecs(s) _ {r}) "]" {
 				Expr::ArrComp(Rc::new(expr), specs)
